@@ -5,6 +5,7 @@
 //! the real `ReplicationUpdateVector::range_diff`, compared with a decision table coded from the
 //! property text.
 
+use kanidmd_lib::server::QueryServerTransaction;
 use kanidmd_lib::verif_hooks::{range_diff, ReplCidRange, VerifRangeDiff};
 use kv_engine::{product, Ctx, Level};
 use serde_json::json;
@@ -132,6 +133,87 @@ fn case(idx: u64, w: &[Option<(u64, u64)>], ns: usize) -> (Vec<Option<(u64, u64)
     )
 }
 
+/// The wire answer of a REAL supplier (`supplier_provide_changes`) for consumer range maps built
+/// relative to the supplier's own windows. Two real replicas are joined and exchange writes so
+/// that the supplier's RUV holds two server ids; for each id the consumer's window is one of
+/// {absent, identical, older but overlapping, entirely behind, entirely ahead} (25 combinations)
+/// and the expected answer is the decision table's status mapped as the statement says
+/// (supply / nothing to send / refresh / refuse).
+fn wire_conformance(ctx: &mut Ctx) -> u64 {
+    use crate::worlds::repl::{answer_kind, Cfg, Op, Repl};
+    use kanidmd_lib::repl::proto::{ReplCidRange as PCidRange, ReplRuvRange};
+    use kv_engine::forkdfs::World;
+    let cfg = Cfg { replicas: 2, slots: vec![0], names: 1, disp: true, rename: false, lifecycle: false, revive: false, members: false, refresh: false, aging: false, max_repl: 9, precreate: vec![0], same_time: false, props: ["C08"].into_iter().collect(), pre_ops: vec![], small: true };
+    let mut w = Repl::new(cfg);
+    // both replicas write twice and exchange, so that each holds a two-point window for both ids
+    for op in [Op::SetDisp(1, 0, 0), Op::Repl(1, 0), Op::SetDisp(0, 0, 0), Op::SetMail(1, 0), Op::Repl(1, 0), Op::Repl(0, 1), Op::SetMail(0, 0)] {
+        let l = w.apply(&op);
+        if l.starts_with("err") {
+            ctx.machinery_error(format!("wire conformance setup {op:?}: {l}"));
+            return 0;
+        }
+    }
+    let srv = &w.srvs[0];
+    let own: Result<ReplRuvRange, _> = srv.rt.block_on(async {
+        let mut t = srv.qs.write(crate::srv::t(900)).await?;
+        t.consumer_get_state()
+    });
+    let (domain_uuid, ranges) = match own {
+        Ok(ReplRuvRange::V1 { domain_uuid, ranges }) => (domain_uuid, ranges),
+        Err(e) => {
+            ctx.machinery_error(format!("cannot read the supplier's RUV: {e:?}"));
+            return 0;
+        }
+    };
+    let ids: Vec<Uuid> = ranges.keys().copied().collect();
+    if ids.len() != 2 || ranges.values().any(|r| r.ts_min >= r.ts_max) {
+        ctx.machinery_error(format!("wire conformance: expected two server ids with non-degenerate windows, got {ranges:?}"));
+        return 0;
+    }
+    let supp: Vec<Option<(u64, u64)>> = ids.iter().map(|i| Some((ranges[i].ts_min.as_secs(), ranges[i].ts_max.as_secs()))).collect();
+    let opts = |(smin, smax): (u64, u64)| -> Vec<(&'static str, Option<(u64, u64)>)> {
+        let mut v = vec![("absent", None), ("identical", Some((smin, smax))), ("older-overlapping", Some((smin, smin))), ("ahead", Some((smax + 10, smax + 20)))];
+        // a window that starts at the epoch (a server first heard of through a refresh) has nothing before it
+        if smin >= 30 {
+            v.push(("behind", Some((smin - 20, smin - 10))));
+        }
+        v
+    };
+    let mut n = 0;
+    for (na, ca) in opts(supp[0].unwrap_or((0, 0))) {
+        for (nb, cb) in opts(supp[1].unwrap_or((0, 0))) {
+            let cons = vec![ca, cb];
+            let want = match reference(&cons, &supp) {
+                Expect::Ok(m) if m.is_empty() => "NoChangesAvailable",
+                Expect::Ok(_) => "V1",
+                Expect::Refresh(_) => "RefreshRequired",
+                Expect::Unwilling(_) | Expect::Critical(..) | Expect::NoOverlap => "UnwillingToSupply",
+            };
+            let mut cr = BTreeMap::new();
+            for (i, c) in cons.iter().enumerate() {
+                if let Some((a, b)) = c {
+                    cr.insert(ids[i], PCidRange { ts_min: Duration::from_secs(*a), ts_max: Duration::from_secs(*b) });
+                }
+            }
+            let got = srv.rt.block_on(async {
+                let mut r = srv.qs.read().await?;
+                r.supplier_provide_changes(ReplRuvRange::V1 { domain_uuid, ranges: cr })
+            });
+            n += 1;
+            match got {
+                Ok(c) => {
+                    let k = answer_kind(&c);
+                    if k != want {
+                        ctx.violation(&format!("wire_answer:{want}->{k}"), &format!("a real supplier answered {k} to a consumer whose window for server 1 is {na} and for server 2 is {nb}; the statement requires {want}"), json!({"wire": true, "consumer": [na, nb]}));
+                    }
+                }
+                Err(e) => ctx.violation("wire_answer:error", &format!("supplier_provide_changes failed for consumer windows {na}/{nb}: {e:?}"), json!({"wire": true, "consumer": [na, nb]})),
+            }
+        }
+    }
+    n
+}
+
 #[derive(Default)]
 struct Acc {
     evals: u64,
@@ -210,6 +292,9 @@ pub fn run(args: &[String]) -> ! {
             ctx.sample(json!({"consumer": format!("{c:?}"), "supplier": format!("{s:?}"), "expected": format!("{:?}", reference(&c, &s))}));
         }
     }
+    let wire = if ctx.replay.is_none() { wire_conformance(&mut ctx) } else { 0 };
+    evals += wire;
+    ctx.set("wire_answer_cases", wire);
     ctx.set("evaluations", evals);
     // distinct & non-trivial: every case is a distinct input; non-trivial = the two sides share
     // at least one server (anything else is decided by the first test).
